@@ -258,6 +258,29 @@ func c09MinimalOpts6(n, code int) []byte {
 	return out
 }
 
+// c09DistinctOpts6: a message filled with minimal well-formed options of one code,
+// each with a different value (a counter in the first octets of the fixed part), so
+// that a decoder comparing every option of a type with every other one of that type -
+// a uniqueness check, a de-duplicating accessor used inside a loop - finds no early
+// exit (seeded change C09-12: an IAID uniqueness check re-evaluating the accessor per
+// identity association; `wide-ia` repeats ONE association and leaves such a check at
+// its first comparison).
+func c09DistinctOpts6(n, code, fixed int) []byte {
+	out := append([]byte{}, c09MsgHdr6...)
+	for i := 0; len(out)+4+fixed <= n; i++ {
+		v := make([]byte, fixed)
+		for k := 0; k < 4 && k < fixed; k++ {
+			v[k] = byte(i >> (8 * (min(4, fixed) - 1 - k)))
+		}
+		if (code == 1 || code == 2) && fixed >= 3 {
+			// a DUID: opaque type 0x0f00+, counter behind the type code
+			v[0], v[1], v[2], v[3], v[4], v[5] = 0x0f, 0x0f, byte(i>>24), byte(i>>16), byte(i>>8), byte(i)
+		}
+		out = append(out, c09Tlv6(code, v)...)
+	}
+	return out
+}
+
 // c09Repeated: value made of `item` c09Repeated as often as fits after `head`.
 func c09Repeated(n int, head, item []byte) []byte {
 	out := append([]byte{}, head...)
@@ -472,6 +495,10 @@ func costFamilies() []costFamily {
 	for _, code := range []int{150, 59, 18, 6, 60, 15, 8} {
 		code := code
 		fs = append(fs, c09Fam(fmt.Sprintf("minimal-opts-%d", code), "v6", func(n int) []byte { return c09MinimalOpts6(n, code) }))
+	}
+	for _, cf := range [][2]int{{3, 12}, {4, 4}, {25, 12}, {5, 24}, {26, 25}, {13, 2}, {1, 6}, {2, 6}, {8, 2}, {32, 4}, {23, 16}, {37, 4}, {79, 8}, {135, 2}, {62, 3}, {88, 16}, {17, 4}, {150, 4}} {
+		cf := cf
+		fs = append(fs, c09Fam(fmt.Sprintf("distinct-opts-%d", cf[0]), "v6", func(n int) []byte { return c09DistinctOpts6(n, cf[0], cf[1]) }))
 	}
 	fs = append(fs, c09Fam("wide-ia", "v6", c09WideIA6))
 	fs = append(fs, c09Fam("one-generic", "v6", func(n int) []byte { return c09InMsg6(n, 150, make([]byte, c09MaxUDP)) }))
